@@ -1204,11 +1204,14 @@ def run(ctx):
     retried = 0
     for c in cases:
         r = impl.get(c["id"])
-        if r is None or r.startswith("timeout") or r.startswith("abort") or r.startswith("skipped") or \
-                "interrupt_thrown" in r or re.match(r"exception\([A-Z_][A-Za-z0-9_]*\)", r):
-            # (the watchdog's interrupt is thrown as error('$interrupt_thrown', _), which the case's own
-            # catch/3 can intercept; repeated interrupts on a loaded machine were seen to end a case with
-            # `exception(E)`, E unbound)
+        if r is None or not (r.startswith("{") or r.startswith("panic")) or "interrupt_thrown" in r:
+            # timeout / abort / skipped / a ball that escaped the whole query.  Every configuration
+            # catches error(_, _) itself, so a ball at the top is not a unification result: it is the
+            # watchdog (its interrupt is thrown as error('$interrupt_thrown', repl/0); the case's own
+            # catch/3 may intercept one interrupt and the next one then ends the query; on a heavily
+            # loaded machine whole-case answers `exception(E)` and `exception(repl/0)` were seen).
+            # Such cases are inconclusive and are run again, serially, with a long watchdog; what the
+            # second run gives is judged.
             retried += 1
             impl.update(core.run_impl(c["impl"], env={"SV_TIMEOUT_MS": "120000"}))
     findings = []
